@@ -3,6 +3,10 @@
 //
 //	H <op>;<op>;…   | <res>@<moves>#<layout>;…     a queue history
 //	S <dir><elems>  | <elems>                      heapq.Sort
+//	Z <n>           | ok <len> | PANIC:index[<i>]  heapq.New(cmp).Set(make([]struct{}, n)) on the
+//	                                               zero-size element type (machine-int audit, known
+//	                                               finding F14); '?' for 4096 < n <= 2^62 (the loop
+//	                                               would run n times) and for n < 0
 //
 // Elements are key.payload, lists are joined by ','.  dir names the comparison function:
 //
@@ -35,8 +39,10 @@ package main
 
 import (
 	"cmp"
+	"fmt"
 	"strconv"
 	"strings"
+	"time"
 
 	"github.com/creachadair/mds/heapq"
 	"verif/harness/internal/tr"
@@ -322,6 +328,31 @@ func exec(in string) string {
 			return "PANIC:" + strings.TrimPrefix(pk, "panic:")
 		}
 		return elems(es)
+	case "Z":
+		n, err := strconv.Atoi(rest)
+		if err != nil || n < 0 || (n > 4096 && n <= 1<<62) || strings.ContainsAny(rest, "+ ") {
+			return "?"
+		}
+		var out string
+		g := tr.Guard(20*time.Second, func() {
+			defer func() {
+				if r := recover(); r != nil {
+					msg := fmt.Sprint(r)
+					if i, j := strings.IndexByte(msg, '['), strings.IndexByte(msg, ']'); strings.Contains(msg, "index out of range") && i >= 0 && j > i {
+						out = "PANIC:index" + msg[i:j+1]
+					} else {
+						out = "PANIC:other"
+					}
+				}
+			}()
+			q := heapq.New(func(a, b struct{}) int { return 0 })
+			q.Set(make([]struct{}, n))
+			out = "ok " + strconv.Itoa(q.Len())
+		})
+		if g == "hang" {
+			return "HANG"
+		}
+		return out
 	case "H":
 		s := &session{pos: map[int]int{}, cur: asc}
 		s.q = heapq.New(asc).Update(s.cb)
@@ -653,7 +684,7 @@ func permutations(n int, f func(p []int)) {
 }
 
 func main() {
-	tr.Main("heapq histories built in phases against a shadow queue (ascending, descending, zig-zag and random insertion runs reaching 4-6 heap levels, interior Remove by index and by reported position followed by full drains, Reorder and Set mid-life, NewWithData adoption, Clear/New, Update(nil) for a while and Update(callback) again, negative and out-of-range Remove/Peek, Front/Pop on empty, Each with early stop; key ranges from 3 (many duplicates) to 1000; eight comparison functions at New/NewWithData/Reorder/Sort: by key in both directions, 3*(a-b) and 7*(b-a), key/4 in both directions (coarse), constant 0, by payload; Adds and Removes are tagged by the trigger conditions of findings F1/F2; C05 also repeats whole elements, C06 keeps payloads distinct); exhaustive small scopes: every insertion order of 1..5 then drain, every heap-ordered array of 5..7 (thorough 5..9) distinct keys through Set then Remove(i) for every i then drain, every permutation of 1..5 (thorough 1..6) through Set then Remove(i) then drain, every permutation of 1..5 through NewWithData in both directions and under the six other comparison functions with a Reorder to a coarse one; every heap-ordered array of 3..7 keys through Set then Add of every rank then drain; heapq.Sort on random slices of length 0..40 in both directions. Non-trivial: the history held at least 8 elements at some point, or a Sort of at least 2 elements.",
+	tr.Main("heapq histories built in phases against a shadow queue (ascending, descending, zig-zag and random insertion runs reaching 4-6 heap levels, interior Remove by index and by reported position followed by full drains, Reorder and Set mid-life, NewWithData adoption, Clear/New, Update(nil) for a while and Update(callback) again, negative and out-of-range Remove/Peek, Front/Pop on empty, Each with early stop; key ranges from 3 (many duplicates) to 1000; eight comparison functions at New/NewWithData/Reorder/Sort: by key in both directions, 3*(a-b) and 7*(b-a), key/4 in both directions (coarse), constant 0, by payload; Adds and Removes are tagged by the trigger conditions of findings F1/F2; C05 also repeats whole elements, C06 keeps payloads distinct); exhaustive small scopes: every insertion order of 1..5 then drain, every heap-ordered array of 5..7 (thorough 5..9) distinct keys through Set then Remove(i) for every i then drain, every permutation of 1..5 (thorough 1..6) through Set then Remove(i) then drain, every permutation of 1..5 through NewWithData in both directions and under the six other comparison functions with a Reorder to a coarse one; every heap-ordered array of 3..7 keys through Set then Add of every rank then drain; heapq.Sort on random slices of length 0..40 in both directions; Set on heapq.Queue[struct{}] of 0..4096 and of more than 2^62 elements (known finding F14). Non-trivial: the history held at least 8 elements at some point, or a Sort of at least 2 elements.",
 		exec, func(g *tr.G) {
 			dup := g.Prop != "C06"
 			// exhaustive small scopes
@@ -774,6 +805,14 @@ func main() {
 						tags = append(tags, "sort-other-cmp")
 					}
 					g.Emit("S "+string(d)+elems(es), n >= 2, tags...)
+				}
+				// the zero-size element type: small sizes, and sizes above 2^62 where the child index
+				// 2*i+1 leaves the int range (known finding F14; immediate, allocates nothing)
+				for _, n := range []int{0, 1, 2, 3, 100, 4096} {
+					g.Emit("Z "+strconv.Itoa(n), n >= 2, "zero-size")
+				}
+				for _, n := range []int{1<<62 + 1, 1<<62 + 2, 1<<63 - 1 - 7, 1<<63 - 1} {
+					g.Emit("Z "+strconv.Itoa(n), true, "zero-size", "zero-size-above-2^62")
 				}
 				permutations(4, func(p []int) {
 					es := make([]E, len(p))
